@@ -188,12 +188,31 @@ def run(tier, seed, focus=None):
     thorough = tier == "thorough"
     tfs = TF_THOROUGH if thorough else TF_QUICK
     n_streams, n_sched, lengths = explore(rep, rnd, thorough, tfs, False, R.resample, FN_COLLAPSE, _derived)
+    # the timeframe NAME -> length mapping, enumerated: every unit, every multiplier up to 1500 (three and four digit ones included)
+    from datetime import timedelta as _td
+
+    from hexital.utils.timeframe import timeframe_to_timedelta
+
+    unit_kw = {"S": "seconds", "T": "minutes", "H": "hours", "D": "days"}
+    for unit, kwname in unit_kw.items():
+        for k in range(1, 1501 if thorough else 400):
+            rep.checked += 1
+            name = f"{unit}{k}"
+            try:
+                got = timeframe_to_timedelta(name)
+            except Exception as e:  # noqa
+                got = f"raised {type(e).__name__}: {e}"
+            want = _td(**{kwname: k})
+            if got != want:
+                rep.fail("timeframe-length", f"parse/{unit}/{name}", "hexital.utils.timeframe.timeframe_to_timedelta",
+                         f"timeframe_to_timedelta({name!r}) = {got}, the timeframe {name} is {want}", {"timeframe": name}, unit, dedupe=unit)
     bound = (
         f"TZ=UTC; {len(tfs)} timeframes {tfs} x 4 timestamp modes (mixed/dense/gaps/dups; second resolution, duplicates, "
         f"multi-bucket gaps) x first candle on/off a boundary x {n_streams} random streams (lengths {lengths}) x "
         f"{3 + 2 * n_sched} schedules (construction, one-by-one, random chunks, construction-prefix + chunks, each optionally with "
         "repeated collapse_candles()/append([]) passes) through CandleManager and, on a rotating subset, Indicator(timeframe=), "
         "Hexital(timeframe=) and a Hexital member indicator with its own timeframe; candles (timestamp, OHLCV) compared exactly "
-        "with ref_store.resample, plus volume conservation and strictly increasing labels. Timestamp-less candles excluded."
+        "with ref_store.resample, plus volume conservation and strictly increasing labels. Timestamp-less candles excluded. "
+        "Timeframe names: every unit S/T/H/D with every multiplier 1..399 (thorough: 1..1500) against timedelta."
     )
     return rep.result(bound)
